@@ -46,7 +46,7 @@ package parser
 
 //@ func (*Lexer).scanText
 //@   effects noalloc
-//@   props C06
+//@   props C06 C02
 //@   requires LexInv(l) && l.pos < len(l.input)
 //@   requires Pos16(l)
 //@   requires l.input[l.pos] != '\n' && l.input[l.pos] != ';' && l.input[l.pos] != '|'
@@ -54,6 +54,7 @@ package parser
 //@   ensures [C08,C17:pos16] Pos16(l)
 //@   ensures [C08,C17:tokpos] PosOK(l.input, result.Pos) && PosOK(l.input, result.End)
 //@   ensures [vallen] len(result.Value) <= len(l.input)
+//@   ensures [C02,C08:text_runs_to_a_stop] l.pos == len(l.input) || l.input[l.pos] == '\n' || l.input[l.pos] == ';' || l.input[l.pos] == '|'
 //@   ensures [progress] l.pos > old(l.pos)
 //@   ensures [span] result.Pos.Offset == old(l.pos) && result.End.Offset == l.pos && result.Type == TokenText
 //@   ensures [posvalid] result.Pos.Line >= 1 && result.Pos.Column >= 1 && result.Pos.Line <= len(l.input) + 1 && result.Pos.Column <= len(l.input) + 1
